@@ -194,6 +194,9 @@ func (fv *FV) heapLoadPath(st *State, ref Term, root types.Type, path []int) Ter
 	if _, isSl := cur.T.Underlying().(*types.Slice); isSl {
 		st.assume(Term{S: fmt.Sprintf("(>= (%s_len %s) 0)", cur.Sort, cur.S), Sort: SBool})
 	}
+	if _, isB := cur.T.Underlying().(*types.Basic); isB && cur.Sort == SInt {
+		fv.typeAssume(st, cur, cur.T)
+	}
 	if _, isP := cur.T.Underlying().(*types.Pointer); isP {
 		// refs read from the heap are allocated
 		cur = fv.def(st, "ld", cur)
@@ -688,14 +691,9 @@ func (fv *FV) sliceOp(st *State, x *ssa.Slice) {
 		fv.setReg(st, x, tv(bt))
 		return
 	}
-	// general sub-slice: fresh array with shifted contents
-	es := fv.sliceElems[bt.Sort]
-	na := fv.freshConst(st, "subarr", arraySort(SInt, es), nil)
-	fv.nfresh++
-	k := fmt.Sprintf("k_q%d", fv.nfresh)
-	st.assume(Term{S: fmt.Sprintf("(forall ((%s Int)) (! (=> (and (<= 0 %s) (< %s (- %s %s))) (= (select %s %s) (select (%s_arr %s) (+ %s %s)))) :pattern ((select %s %s))))",
-		k, k, k, hi.S, lo.S, na.S, k, bt.Sort, bt.S, lo.S, k, na.S, k), Sort: SBool})
-	r := Term{S: fmt.Sprintf("(%s_mk %s (- %s %s))", bt.Sort, na.S, hi.S, lo.S), Sort: bt.Sort, T: x.Type()}
+	// general sub-slice: an uninterpreted function per slice sort with defining axioms
+	r := fv.subSlice(bt, lo, hi)
+	r.T = x.Type()
 	fv.setReg(st, x, tv(r))
 }
 
@@ -712,15 +710,10 @@ func (fv *FV) convert(st *State, x *ssa.Convert) {
 		fv.setReg(st, x, tv(r))
 	case from == SStr && strings.HasPrefix(to, "pv_Sl_"):
 		// []byte(s) / []rune(s)
-		name := "pv_conv_" + smtName(typeShort(x.Type()))
-		fv.decls.Add(1, name, fmt.Sprintf("(declare-fun %s (pv_Str) %s)\n(assert (forall ((s pv_Str)) (! (and (>= (%s_len (%s s)) 0) (<= (%s_len (%s s)) (pv_len s))) :pattern ((%s s)))))", name, to, to, name, to, name, name))
-		r := app(to, name, v)
-		r.T = x.Type()
+		r := fv.strToSlice(v, x.Type())
 		fv.setReg(st, x, tv(r))
 	case strings.HasPrefix(from, "pv_Sl_") && to == SStr:
-		name := "pv_conv_str_" + smtName(from)
-		fv.decls.Add(1, name, fmt.Sprintf("(declare-fun %s (%s) pv_Str)", name, from))
-		r := app(SStr, name, v)
+		r := fv.sliceToStr(v)
 		r.T = x.Type()
 		fv.setReg(st, x, tv(r))
 	case from == SInt && to == SF64:
@@ -807,6 +800,14 @@ func (fv *FV) lookup(st *State, x *ssa.Lookup) {
 }
 
 func (fv *FV) rangeInit(st *State, x *ssa.Range) {
+	if b, ok := x.X.Type().Underlying().(*types.Basic); ok && b.Info()&types.IsString != 0 {
+		// range over a string: iterator state = byte offset of the next rune
+		s := fv.vterm(st, x.X)
+		id := CellID{Frame: st.frame.ID, A: x}
+		st.cells[id] = tv(mkInt(0))
+		fv.setReg(st, x, SymVal{K: VMapIter, Cell: id, T: s})
+		return
+	}
 	if _, ok := x.X.Type().Underlying().(*types.Map); !ok {
 		fv.outsidef("range over %s", x.X.Type())
 		return
@@ -826,6 +827,21 @@ func (fv *FV) rangeNext(st *State, x *ssa.Next) {
 		return
 	}
 	r := x.Iter.(*ssa.Range)
+	if x.IsString {
+		s := it.T
+		off := st.cells[it.Cell].T
+		fv.runeDecls()
+		ok := fv.def(st, "rng_ok", app(SBool, "<", off, Term{S: "(pv_len " + s.S + ")", Sort: SInt}))
+		w := Term{S: fmt.Sprintf("(pv_runew %s %s)", s.S, off.S), Sort: SInt}
+		nc := st.cells[it.Cell]
+		nc.T = fv.def(st, "rng_off", tIte(ok, app(SInt, "+", off, w), off))
+		st.cells[it.Cell] = nc
+		rv := Term{S: fmt.Sprintf("(pv_runeat %s %s)", s.S, off.S), Sort: SInt, T: types.Typ[types.Int32]}
+		koff := off
+		koff.T = types.Typ[types.Int]
+		fv.setReg(st, x, SymVal{K: VTuple, Elems: []SymVal{tv(ok), tv(koff), tv(rv)}})
+		return
+	}
 	ks, vs, mt := fv.mapSorts(r.X.Type())
 	m := it.T
 	visited := st.cells[it.Cell].T
@@ -847,4 +863,59 @@ func (fv *FV) rangeNext(st *State, x *ssa.Next) {
 	v := tSelect(tSelect(vh, m, arraySort(ks, vs)), k, vs)
 	v.T = mt.Elem()
 	fv.setReg(st, x, SymVal{K: VTuple, Elems: []SymVal{tv(ok), tv(k), tv(fv.def(st, "rng_v", v))}})
+}
+
+// subSlice: s[lo:hi] for slices, as a function with defining axioms (so that specs can name the same term).
+func (fv *FV) subSlice(bt, lo, hi Term) Term {
+	srt := bt.Sort
+	es := fv.sliceElems[srt]
+	name := "pv_subsl_" + smtName(srt)
+	fv.decls.Add(1, name, fmt.Sprintf(`(declare-fun %[1]s (%[2]s Int Int) %[2]s)
+(assert (forall ((s %[2]s) (i Int) (j Int)) (! (= (%[2]s_len (%[1]s s i j)) (- j i)) :pattern ((%[1]s s i j)))))
+(assert (forall ((s %[2]s) (i Int) (j Int) (k Int)) (! (=> (and (<= 0 k) (< k (- j i))) (= (select (%[2]s_arr (%[1]s s i j)) k) (select (%[2]s_arr s) (+ i k)))) :pattern ((select (%[2]s_arr (%[1]s s i j)) k)))))`, name, srt))
+	_ = es
+	return Term{S: fmt.Sprintf("(%s %s %s %s)", name, bt.S, lo.S, hi.S), Sort: srt}
+}
+
+func (fv *FV) runeDecls() {
+	fv.assume("A3b: UTF-8 decoding facts (rune width 1..4, rune offsets, rune count) are axioms about the Go string/rune conversions")
+	fv.decls.Add(1, "pv_runew", `(declare-fun pv_runew (pv_Str Int) Int)
+(declare-fun pv_runeat (pv_Str Int) Int)
+(declare-fun pv_runeoff (pv_Str Int) Int)
+(declare-fun pv_rlen (pv_Str) Int)
+(assert (forall ((s pv_Str) (i Int)) (! (=> (and (<= 0 i) (< i (pv_len s))) (and (<= 1 (pv_runew s i)) (<= (pv_runew s i) 4) (<= (+ i (pv_runew s i)) (pv_len s)))) :pattern ((pv_runew s i)))))
+(assert (forall ((s pv_Str)) (! (and (= (pv_runeoff s 0) 0) (>= (pv_rlen s) 0) (<= (pv_rlen s) (pv_len s)) (= (pv_runeoff s (pv_rlen s)) (pv_len s))) :pattern ((pv_rlen s)))))
+(assert (forall ((s pv_Str)) (! (= (pv_runeoff s 0) 0) :pattern ((pv_runeoff s 0)))))
+(assert (forall ((s pv_Str) (k Int) (t pv_Str)) (! (=> (and (<= 0 k) (<= k (pv_rlen s))) (<= (pv_rlen (pv_cat (pv_sub s 0 (pv_runeoff s k)) t)) (+ k (pv_rlen t)))) :pattern ((pv_cat (pv_sub s 0 (pv_runeoff s k)) t)))))
+(assert (forall ((s pv_Str) (k Int)) (! (=> (and (<= 0 k) (< k (pv_rlen s))) (and (< (pv_runeoff s k) (pv_len s)) (<= 0 (pv_runeoff s k)) (= (pv_runeoff s (+ k 1)) (+ (pv_runeoff s k) (pv_runew s (pv_runeoff s k)))))) :pattern ((pv_runeoff s k)))))`)
+}
+
+// strToSlice: []rune(s) / []byte(s)
+func (fv *FV) strToSlice(v Term, t types.Type) Term {
+	to := fv.sortOf(t)
+	name := "pv_conv_" + smtName(typeShort(t))
+	isRune := false
+	if b, ok := elemType(t).Underlying().(*types.Basic); ok && b.Kind() == types.Int32 {
+		isRune = true
+	}
+	if isRune {
+		fv.runeDecls()
+		fv.decls.Add(1, name, fmt.Sprintf("(declare-fun %s (pv_Str) %s)\n(assert (forall ((s pv_Str)) (! (= (%s_len (%s s)) (pv_rlen s)) :pattern ((%s s)))))", name, to, to, name, name))
+	} else {
+		fv.decls.Add(1, name, fmt.Sprintf("(declare-fun %s (pv_Str) %s)\n(assert (forall ((s pv_Str)) (! (= (%s_len (%s s)) (pv_len s)) :pattern ((%s s)))))", name, to, to, name, name))
+	}
+	r := app(to, name, v)
+	r.T = t
+	return r
+}
+
+func (fv *FV) sliceToStr(v Term) Term {
+	name := "pv_conv_str_" + smtName(v.Sort)
+	fv.decls.Add(1, name, fmt.Sprintf("(declare-fun %s (%s) pv_Str)", name, v.Sort))
+	if v.Sort == "pv_Sl_Int" {
+		// string(runes): every rune contributes one rune to the result, also in front of more text
+		fv.runeDecls()
+		fv.decls.Add(1, name+":rlen", fmt.Sprintf("(assert (forall ((r %s) (t pv_Str)) (! (= (pv_rlen (pv_cat (%s r) t)) (+ (%s_len r) (pv_rlen t))) :pattern ((pv_cat (%s r) t)))))", v.Sort, name, v.Sort, name))
+	}
+	return app(SStr, name, v)
 }
